@@ -2296,8 +2296,11 @@ func caseHashAny(v any) uint64 {
 }
 
 func child(c *vf.Ctx) {
-	if c.Child == "conc" {
+	switch c.Child {
+	case "conc":
 		concurrentChild(c)
+	case "disc":
+		discChild(c)
 	}
 }
 
@@ -2307,8 +2310,13 @@ func replay(c *vf.Ctx) {
 	var probe struct {
 		Concurrent string `json:"concurrent"`
 		Report     string `json:"report"`
+		Disc       string `json:"disc"`
 	}
 	c.LoadReplay(&probe)
+	if probe.Disc != "" {
+		discReplay(c)
+		return
+	}
 	if probe.Report != "" {
 		fmt.Fprintln(os.Stderr, "race reports are re-produced by re-running the check with the recorded seed")
 		os.Exit(3)
@@ -2347,8 +2355,14 @@ func run(c *vf.Ctx) {
 		return
 	}
 	c.SetRule("sequential: a history (TypedValue: all of length <= 4 (quick) / 5 (thorough) plus seeded ones of length 1-8; TypedStore: seeded, length 1-8 over every exported method (Get, Has, Set, Delete, Iterate, IterateKeys, DeletePrefix, Clear, KVStore) plus raw writes behind the typed layer, three keys sharing prefixes, raw entries absent/present/undecodable value/undecodable key/both) is run fault-free to learn its N fallible sites (store calls and codec calls in one numbering), then N times with site i failing (plus seeded pairs of sites); one evaluation = one such run; distinct_nontrivial = distinct (history, failing site) in which the fault actually fired; fault_contexts = distinct (method, kind of failing site). views: the same histories with the typed object built on a KVStore other than a bare root store - a stack of {fault injector, flush-on-write wrapper, debug wrapper} over one root mapdb with a chain of 0-4 WithRealm/WithExtendedRealm calls applied at any level of the stack (realm pieces are prefixes of / equal to the encoded keys, unrelated, a zero byte, empty), the root store also holding entries outside the realm; a fixed matrix (10 realm chains x 7 stacks x every level, every single TypedStore operation incl. every prefix/direction/stop, all TypedValue histories of length <= 2) plus seeded ones; after every step the WHOLE root store is compared with model + outside entries; view_shapes = distinct (stack, level, chain). sentinels: compute functions also abort with ErrTypedValueNotChanged wrapped five ways (fmt %w, ierrors.Wrap, errors.Join either side, nested) - to be treated as the bare sentinel (errors.Is semantics) - or fail with an error that also wraps ErrKeyNotFound; a store layer that reports absence as a wrapped ErrKeyNotFound; every injected codec/store failure optionally also wraps ErrKeyNotFound or ErrTypedValueNotChanged (never on a store Get, where ErrKeyNotFound means absent) and must still be reported and change nothing. concurrent: one evaluation = one operation executed while 2-8 goroutines share one TypedValue (every third mixed round over a store that refuses seeded calls; a refused operation must report it and is left out of the history); gated: one operation is parked inside its first store read (before or after the read) while a second goroutine issues 1-4 operations some of which the store refuses, 1-2 such episodes, closed by Get/Has/raw read - the non-failed operations must be linearizable")
+	discDone := make(chan struct{})
+	go func() { // the disciplines child (two goroutines) runs next to the sequential part
+		defer close(discDone)
+		discPart(c)
+	}()
 	sequentialPart(c)
 	c.SetExhaustive(false)
+	<-discDone
 	for _, race := range []bool{false, true} {
 		args := []string{"plain"}
 		if race {
